@@ -72,6 +72,8 @@ func resTerm(n *vh.Names, r Res) string {
 		return "RsPaths " + vh.List(el)
 	case "leaves":
 		return "RsLeaves " + leavesTerm(n, r.Leaves)
+	case "swallowed":
+		return "RsSwallowed"
 	case "qerr":
 		return "RsQErr"
 	case "unit":
@@ -412,6 +414,7 @@ func scenarios() []scenario {
 		// way out, so the writers that follow (also strictly sequentially) return
 		{"queryerr-literal", []SOp{add("a/b", 1), add("a/c", 2), qerr("a/b", 0), del("a"), add("a/d", 3), get("a/c")}, []int{0, 0, 1, 1}, 60, 1000},
 		{"queryerr-glob", []SOp{add("a/b", 1), add("a/c", 2), qerr("a/*", 0), add("a/e", 5), del("x"), qry("a/*")}, []int{0, 0, 1, 1}, 80, 2000},
+		{"queryerr-midglob", []SOp{add("a/x/c", 1), add("a/y/c", 2), qerr("a/*/c", 0), del("a/x"), qerr("*/*/c", 1), add("a/z/c", 3)}, []int{0, 0, 1, 1}, 60, 1000},
 		{"queryerr-second", []SOp{add("a/b/c", 1), add("a/b/d", 2), qerr("a/b/*", 1), add("a/b/e", 3), del("a/b/c"), qerr("", 0)}, []int{0, 0, 1, 1}, 80, 2000},
 		// every read-side traversal parked at each callback x a multi-leaf delete:
 		// the delete must stay blocked on the root lock until the traversal is over,
@@ -421,6 +424,10 @@ func scenarios() []scenario {
 		{"walksorted-delcond", []SOp{add("a/x", 1), add("a/y", 2), add("b", 3), {K: "walksorted"}, {K: "delcond", P: P("a")}, {K: "walk"}}, []int{0, 0, 1, 1, 2, 2}, 80, 1000},
 		{"query-delete-glob", []SOp{add("a/k", 1), add("b/z", 2), add("c/k", 3), qry("*/*"), del("*/k"), qry("")}, []int{0, 0, 1, 1, 2, 2}, 80, 1000},
 		{"walkerr-delete", []SOp{add("a/k", 1), add("b/k", 2), {K: "walksortederr", V: 1}, del("*"), {K: "walkerr", V: 0}, add("c", 3)}, []int{0, 0, 1, 1}, 80, 1000},
+		// the same interactions four and five levels down (lock coupling must not depend on depth)
+		{"deep-hold-get", []SOp{add("a/b/c/d", 1), hold("a/b/c/d", 5), get("a/b/c/d"), del("a/b"), add("a/b/c/d", 7)}, []int{0, 0}, 60, 1000},
+		{"deep-upgrade", []SOp{add("a/b/c/x/y", 1), add("a/b/c/z/w", 2), add("a/b/c/x/v", 3), del("a/b/c/x")}, nil, 80, 2000},
+		{"deep-query-park", []SOp{add("a/b/c/d", 1), add("a/b/c/e", 2), qry("a/b/*/d"), del("a/*/c"), add("a/b/c/f/g", 3)}, []int{0, 0, 1, 1}, 60, 1000},
 		{"two-holds-get", []SOp{add("a/b", 1), hold("a/b", 5), get("a/b"), del("a"), hold("a/b", 6)}, []int{0, 0}, 60, 2000},
 		{"hold-get-add", []SOp{add("a/b", 1), add("a/c", 2), hold("a/b", 5), get("a/b"), add("a/b", 7), get("a/c"), del("a/b")}, []int{0, 0, 1, 1}, 80, 3000},
 		{"two-deleters", []SOp{add("a/b", 1), add("a/c/d", 2), del("a/b"), del("a"), add("a/c/e", 3)}, []int{0, 0}, 80, 3000},
